@@ -287,6 +287,23 @@ def shift_spec(spec, dx):
     return spec
 
 
+def to_tenths(rng, values):
+    """Element values moved onto decimal tenths and rounded to float32 (the exact float64 value
+    of the float32 number is kept, so the model holds what the array stores)."""
+    def one(c):
+        if c != c:
+            return c
+        return float(np.float32(min(16.0, int(c) + rng.randint(0, 9) / 10)))
+
+    def rec(v):
+        if v is None:
+            return None
+        if isinstance(v, list) and v and isinstance(v[0], list):
+            return [rec(x) for x in v]
+        return [one(c) for c in v]
+    return [rec(v) for v in values]
+
+
 def make_collinear(spec, rng):
     """Flatten one axis of the active geometry column of a frame spec (in place)."""
     c = col_of(spec, spec["active"])
